@@ -18,6 +18,7 @@ type Scope struct {
 	Builtin bool                 // deterministic built-ins allowed
 	NumLits []string
 	StrLits []string
+	Random  bool // the random built-ins may be used
 }
 
 var DefaultNumLits = []string{"0", "1", "2", "3", "5", "7", "10", "100", "0.5", "2.5", "1.25", "0.1", "12"}
@@ -47,6 +48,16 @@ func (s *Scope) strLit(r *core.Rand) *hast.Expr {
 func (s *Scope) leaf(r *core.Rand, t hast.Ty) *hast.Expr {
 	if vs := s.Vars[t]; len(vs) > 0 && r.Chance(1, 2) {
 		return hast.Var(vs[r.Intn(len(vs))])
+	}
+	if s.Random && t == hast.TNum && r.Chance(2, 5) {
+		switch r.Intn(3) {
+		case 0:
+			return hast.Call("dice", hast.Num(r.Pick("1", "2", "6", "20", "100")))
+		case 1:
+			lo := r.Range(-5, 5)
+			return hast.Call("random_range", numOrNeg(lo), numOrNeg(lo+r.Range(0, 9)))
+		}
+		return hast.Call("random")
 	}
 	switch t {
 	case hast.TNum:
@@ -112,6 +123,13 @@ func (s *Scope) Expr(r *core.Rand, t hast.Ty, depth int) *hast.Expr {
 		}
 		return hast.Bin("+", s.Expr(r, hast.TStr, depth-1), s.Expr(r, hast.TStr, depth-1))
 	}
+}
+
+func numOrNeg(v int) *hast.Expr {
+	if v < 0 {
+		return hast.Neg(hast.Num(strconv.Itoa(-v)))
+	}
+	return hast.Num(strconv.Itoa(v))
 }
 
 // Count returns the number of nodes of an expression and the set of binary
